@@ -125,15 +125,22 @@ PROPS = {
         assumptions=['simulated MPI (vf/shim)'],
     ),
     'C03': dict(
-        level='other',
+        level='proof',
         contracts=[],
         functions=[],
-        case_functions=[dict(module='vf.contracts.swapper_redirect', key='pygyro/model/layout.py::LayoutSwapper')],
+        case_functions=[dict(module='vf.contracts.swapper_redirect', key='pygyro/model/layout.py::LayoutSwapper'),
+                        dict(module='vf.contracts.swapper_steps', key='pygyro/model/layout.py::LayoutSwapper')],
         bounded=[dict(module='vf.rt.bounded_layout', prop='C03',
                       bound='3-D groupings [[p0,p1],p0] / [[p0,p1],[p0]] and the 4-D grouping of the standard layouts with their 1-D '
                             'versions, process grids (1,1)..(3,2) incl. extents of 1, extents 2..7 (even, uneven, n==p), every '
                             'round trip a->b->a and seeded random sequences of 5 layouts, with/without buffer')],
-        assumptions=['simulated MPI (vf/shim): Allgather/Alltoall as in the MPI standard'],
+        assumptions=['simulated MPI (vf/shim): Allgather/Alltoall as in the MPI standard (bounded part)',
+                     'MPI_Allgather contract (equal counts, chunk r received = send buffer of member r) - assumed',
+                     'every member of the communicator holds its block of the field in the source layout (global precondition, '
+                     'stated on the send buffers)',
+                     'layouts built for this process: rank in the extra communicator = coordinate used by Layout.__init__; equal '
+                     'starts where distributed alike (constructor communicator matching: bounded part only)',
+                     'array elements are mathematical reals; source/dest/buf are distinct arrays'],
     ),
     'C04': dict(
         level='proof',
